@@ -43,6 +43,9 @@ checks = {
  "C18": (FE, "faultenum", "exhaustive storage-fault enumeration (every fallible database call index x repeat count of every base history) through a db seam",
    "For the shortest history of every state of the C01 space up to the base depth, each fallible wallet-database call in turn (and runs of 2/3 consecutive calls) returns an error; once storage works again and the next tip arrives, all ledger queries must equal the reference ledger.",
    "§5 C18"),
+ "C19": (MC, "apienum", "exhaustive product of per-parameter domains for every API method in 9 reachable wallet states, under recover, plus malformed relays",
+   "For each of 9 reachable wallet states and each of the 28 request-taking API methods the full product of small per-field domains (derived from the request type by reflection, largest domains trimmed only above the cap) is executed on the real APIServer over the real wallet under recover() with FATAL trapping, followed by a follower liveness probe; 12 malformed relayed transactions per state go to the follower entry point.",
+   "§5 C19"),
  "C13": (MC, "enum", "bounded-exhaustive input enumeration against an independent BIP-39 reference",
    "Input-bounded model checking: every member of the described entropy / word-sequence families is run through the real mnemonic code and compared with an independent reference validated against BIP-39 vectors.", "§5 C13"),
  "C14": (MC, "enum", "bounded-exhaustive (seed x path) and corruption enumeration against an independent BIP-32 reference",
@@ -70,6 +73,8 @@ m = {
    "kind_free_text": "closed environment: real mass-core chain DB driven with synthetic blocks, reference ledger, consensus oracle"},
   {"name": "faultenum", "path": "harness/dbseam harness/models/c06 harness/cmd/vcheck/check_c06.go", "serves_properties": ["C06", "C18"],
    "kind_free_text": "db seam around mwdb.DB (call counting, error injection, stop-the-world before commit k) + enumeration of every crash/fault point of every base history"},
+  {"name": "apienum", "path": "harness/models/c19", "serves_properties": ["C19"],
+   "kind_free_text": "reflection-driven request enumeration over the pb request types, executed per (state, method) by the histbfs parent"},
   {"name": "dbmodel", "path": "harness/models/c11", "serves_properties": ["C11"],
    "kind_free_text": "reference nested-map model of the wallet database + full read-back oracle, explored by the histbfs parent"},
   {"name": "enum", "path": "harness/enum", "serves_properties": [k for k, v in checks.items() if v[1] == "enum"],
